@@ -35,8 +35,53 @@ Theorem pop3_user_canonical_refuted :
   exists mode a r, new_recipient no_ip mode a = Some r /\ read_name no_ip mode pop3_user_flow a <> Some (r_mailbox r).
 Proof. exists Local, pop3_witness. eexists. split; [vm_compute; reflexivity|]. vm_compute. discriminate. Qed.
 
-(** what does hold for POP3: an address that is already its own canonical name reaches its mailbox *)
-Theorem pop3_user_partial parse_ip mode a r :
-  new_recipient parse_ip mode a = Some r -> r_mailbox r = a -> read_name parse_ip mode pop3_user_flow a = Some (r_mailbox r).
-Proof. intros _ E. rewrite E. reflexivity. Qed.
+(** the clause of the property that is refuted (kept visible; listed in lib/props/c04.py NOT_PROVED) *)
+Definition pop3_user_canonical_stmt : Prop :=
+  forall parse_ip mode a r, new_recipient parse_ip mode a = Some r -> read_name parse_ip mode pop3_user_flow a = Some (r_mailbox r).
 
+(** What does hold for POP3. Logging in with the ADDRESS reaches the mailbox exactly when the
+    address is its own canonical name ... *)
+Theorem pop3_user_by_address_iff parse_ip mode a r :
+  new_recipient parse_ip mode a = Some r ->
+  (read_name parse_ip mode pop3_user_flow a = Some (r_mailbox r) <-> r_mailbox r = a).
+Proof. intros _. cbn [read_name pop3_user_flow]. split; intros H; congruence. Qed.
+
+(** ... which never happens in local and in domain naming: an accepted address carries a
+    non-empty validated domain, so it is strictly longer than its mailbox name. In these two
+    modes USER <address> misses the mailbox for EVERY accepted address. *)
+Theorem pop3_user_by_address_never_local parse_ip a r :
+  new_recipient parse_ip Local a = Some r ->
+  r_mailbox r <> a /\ read_name parse_ip Local pop3_user_flow a <> Some (r_mailbox r).
+Proof.
+  intros R. assert (N : r_mailbox r <> a).
+  { destruct (recipient_name parse_ip Local a r R) as [l [d [P [V Q]]]].
+    destruct (parse_email_bounds a l d P) as [_ [_ B]]. specialize (B (validate_nonempty parse_ip d V)).
+    apply parse_mailbox_name_some in Q as [_ [_ [_ L]]]. intros E. rewrite E in L. lia. }
+  split; [exact N|]. intros H. apply (pop3_user_by_address_iff parse_ip Local a r R) in H. exact (N H).
+Qed.
+
+Theorem pop3_user_by_address_never_domain parse_ip a r :
+  new_recipient parse_ip Domain a = Some r ->
+  r_mailbox r <> a /\ read_name parse_ip Domain pop3_user_flow a <> Some (r_mailbox r).
+Proof.
+  intros R. assert (N : r_mailbox r <> a).
+  { destruct (recipient_name parse_ip Domain a r R) as [l [d [P [V [Q _]]]]].
+    destruct (parse_email_bounds a l d P) as [_ [_ B]]. specialize (B (validate_nonempty parse_ip d V)).
+    intros E. apply (f_equal (@length N)) in E. rewrite Q, canonical_length in E. lia. }
+  split; [exact N|]. intros H. apply (pop3_user_by_address_iff parse_ip Domain a r R) in H. exact (N H).
+Qed.
+
+(** Logging in with the mailbox NAME (what the REST list and the web UI show) reaches the mailbox, in every mode. *)
+Theorem pop3_user_by_name parse_ip mode a r :
+  new_recipient parse_ip mode a = Some r -> read_name parse_ip mode pop3_user_flow (r_mailbox r) = Some (r_mailbox r).
+Proof. intros _. reflexivity. Qed.
+
+(** Full naming: "joe@example.com" is its own name (USER joe@example.com works), "Joe@example.com" is not. *)
+Example pop3_full_canonical_address_works :
+  option_map r_mailbox (new_recipient no_ip Full [106;111;101;64;101;120;97;109;112;108;101;46;99;111;109]) =
+    read_name no_ip Full pop3_user_flow [106;111;101;64;101;120;97;109;112;108;101;46;99;111;109].
+Proof. vm_compute. reflexivity. Qed.
+Example pop3_full_mixed_case_address_fails :
+  option_map r_mailbox (new_recipient no_ip Full [74;111;101;64;101;120;97;109;112;108;101;46;99;111;109]) = Some [106;111;101;64;101;120;97;109;112;108;101;46;99;111;109] /\
+  read_name no_ip Full pop3_user_flow [74;111;101;64;101;120;97;109;112;108;101;46;99;111;109] = Some [74;111;101;64;101;120;97;109;112;108;101;46;99;111;109].
+Proof. vm_compute. split; reflexivity. Qed.
